@@ -419,5 +419,10 @@ def cpp_visit(g, tags):
     o.append("template<> struct tag_id<%s::schema::messages::%s> { static constexpr uint32_t value = 9999; };" % (g.ns, g.M))
     o.append("W int64_t visitc_%s(char* p, size_t n, vlog* l){ %s l->base = p; auto c = sbepp::init_cursor(m); rec v{l}; sbepp::visit_children(m, c, v); return c.pointer() - p; }" % (g.M, g.view()))
     o.append("W int64_t visit_%s(char* p, size_t n, vlog* l){ %s l->base = p; auto c = sbepp::init_cursor(m); rec v{l}; sbepp::visit(m, c, v); return c.pointer() - p; }" % (g.M, g.view()))
+    o.append("struct cntv { uint32_t n, stop_at; bool hit(){ n++; return n == stop_at; } bool stopped() const { return stop_at && n >= stop_at; } "
+             "template<class T, class Tag> bool on_field(T, Tag){ return hit(); } template<class T, class Tag> bool on_data(T, Tag){ return hit(); } "
+             "template<class T, class C, class Tag> bool on_group(T g, C& c, Tag){ if(hit()) return true; return sbepp::visit_children(g, c, *this).stopped(); } "
+             "template<class T, class C> bool on_entry(T e, C& c){ if(hit()) return true; return sbepp::visit_children(e, c, *this).stopped(); } };")
+    o.append("W int64_t visitcount_%s(char* p, size_t n, uint32_t stop_at, uint32_t* count){ %s auto c = sbepp::init_cursor(m); cntv v{0, stop_at}; sbepp::visit_children(m, c, v); *count = v.n; return c.pointer() - p; }" % (g.M, g.view()))
     o.append("W int64_t visitcc_%s(const char* p, size_t n, vlog* l){ %s l->base = p; rec v{l}; sbepp::visit_children(m, v); return 0; }" % (g.M, g.view(const=True)))
     return "\n".join(o) + "\n"
